@@ -916,6 +916,42 @@ def choose_interleave(rnd, p=0.04, kmax=45):
 _UNJUDGED_HUNG = set()
 
 
+def caller_edits(res, depth=0):
+    """What a caller may do to something a call handed back: edit it in place, wherever it is mutable (list items, nested
+    lists, array elements, dict values; tuples are walked, not changed).  The result is the caller's own - converting a
+    table to other units for a report must not reach the library.  Returns the number of in-place edits made."""
+    n = 0
+    if depth > 4:
+        return 0
+    try:
+        import numpy as np
+        if isinstance(res, np.ndarray):
+            if res.size and res.flags.writeable and res.dtype.kind in 'fiu':
+                res *= 100
+                return 1
+            return 0
+    except ImportError:
+        pass
+    if isinstance(res, list):
+        for i, it in enumerate(res):
+            if isinstance(it, (int, float)) and not isinstance(it, bool):
+                res[i] = it * 100 + 1
+                n += 1
+            else:
+                n += caller_edits(it, depth + 1)
+    elif isinstance(res, tuple):
+        for it in res:
+            n += caller_edits(it, depth + 1)
+    elif isinstance(res, dict):
+        for k, it in list(res.items()):
+            if isinstance(it, (int, float)) and not isinstance(it, bool):
+                res[k] = it * 100 + 1
+                n += 1
+            else:
+                n += caller_edits(it, depth + 1)
+    return n
+
+
 def unjudged(ctx, fn, *args, **kwargs):
     """A call the property does not speak about (rejected / meaningless arguments), made between judged calls:
     the result is not judged and exceptions are swallowed; what matters is that judged calls made afterwards are as
